@@ -70,6 +70,12 @@ TReopen == Ev("Reopen") /\ conf' = {} /\ calls' = Empty /\ UNCHANGED dict
 \* flush steps do not change the abstract dictionary
 TNote == Ev("Note") /\ UNCHANGED vars
 
+\* level-0 compaction of the kv families behind the dictionaries (metadata store: ns / metric / schema / tv, shard index
+\* store: series / metric / inverted / forward): the files are merged, NO name -> id mapping changes and nothing
+\* becomes unconfirmed -- every later return is judged against the same dict / conf (SchemaStore!Compact is the
+\* storage-level model: the merged file holds every entry of its inputs)
+TCompact == Ev("Compact") /\ UNCHANGED vars
+
 \* the series ids the shard index knows for one metric (metric => series ids postings, read at a quiescent point).
 \* The next new series id of the metric is derived from them after a restart (IDDictSeries: NewID), so the id of
 \* every series the dictionary resolves must be among them (IDDictSeries: UsedDurable, seen from outside).
@@ -79,11 +85,13 @@ TPostings ==
      \A k \in conf : (k[1] = "series" /\ k[2] = Line.scope) => dict[k] \in ids
   /\ UNCHANGED vars
 
-TraceNext == TReset \/ TCall \/ TRetID \/ TRetNone \/ TReopen \/ TNote \/ TPostings
+TraceNext == TReset \/ TCall \/ TRetID \/ TRetNone \/ TReopen \/ TNote \/ TCompact \/ TPostings
 TraceSpec == TraceInit /\ [][TraceNext]_tvars
 
 \* C09 on the abstract dictionary: injective per id space over the confirmed entries
-Injective == \A a, b \in conf : (Space(a) = Space(b) /\ dict[a] = dict[b]) => a = b
+\* (\A a, b \in conf : (Space(a) = Space(b) /\ dict[a] = dict[b]) => a = b, written as a count so that its evaluation
+\* is not quadratic in the number of names: k |-> <<Space(k), dict[k]>> is one-to-one on conf)
+Injective == Cardinality({<<Space(k), dict[k]>> : k \in conf}) = Cardinality(conf)
 
 HighWater == TLCSet(1, IF l > TLCGet(1) THEN l ELSE TLCGet(1))
 TraceAccepted ==
